@@ -156,6 +156,12 @@ func verifHarness_C02_params() {
 	}
 	verifAssert(verifParamsOK(pat, p, ps), "params are the variable names and substitute back to the path, values satisfy their regex")
 	verifCover("C02 dynamic match")
+	// a HEAD request answered by this GET route gets the same parameters
+	if mode == 0 {
+		gh, psh, _ := r.QuickMatch("HEAD", p)
+		verifAssert(gh != nil, "HEAD is answered by the GET route")
+		verifAssert(verifParamsOK(pat, p, psh), "and reports the parameters of the path like GET does")
+	}
 	if mode == 2 {
 		// another request of the same length in between (it may evict p's entry)
 		q := verifNormalPathN("q", len(p))
